@@ -49,6 +49,20 @@ def totals_logged(md, ref, mode, scaled, log):
                     cur['exec'].add(c['id'])
         return gsl(self, *a, **k)
     om.Group._solve_linear = group_solve
+    # a group whose product is taken from its own assembled jacobian takes part as a whole as well (a Krylov parent calls
+    # _apply_linear of the group, which does not recurse into the components)
+    gal = om.Group._apply_linear
+
+    def group_apply(self, *a, **k):
+        if cur['exec'] is not None:
+            jac = self._get_jacobian()
+            if jac is not None and jac is not self._tot_jac:
+                pre = self.pathname + '.' if self.pathname else ''
+                for c in md['comps']:
+                    if (ob.comp_path(c) + '.').startswith(pre):
+                        cur['exec'].add(c['id'])
+        return gal(self, *a, **k)
+    om.Group._apply_linear = group_apply
     model = p.model
     osl = model._solve_linear
 
@@ -67,6 +81,7 @@ def totals_logged(md, ref, mode, scaled, log):
     finally:
         del model._solve_linear
         om.Group._solve_linear = gsl
+        om.Group._apply_linear = gal
         for (cls, meth), f in orig.items():
             setattr(cls, meth, f)
     return blocks, solves
@@ -172,5 +187,8 @@ def run(ctx):
     ctx.rule = ('generated models with irrelevant branches, 1-2 design variables and 1-3 responses (with indices); 3 linear solvers x '
                 '{relevance on, off} x mode; TLC judges every block against the exact derivative and every logged linear solve '
                 'against RelevantComps; non-trivial = distinct (model, solver, mode, relevance) configurations')
+    from . import c24opt
+    nm, npts = c24opt.run_opt_loop(ctx)
+    ctx.rule += ('; second family: %d generated models with non-design independents run by a deterministic optimisation-style driver with group_by_pre_opt_post on and off, %d design points judged (responses and total-derivative blocks seen in the loop, complete state left after the run)' % (nm, npts))
     ctx.assumptions = ['relevance is disabled through openmdao.utils.relevance._no_relevance (the OPENMDAO_NO_RELEVANCE switch)',
                        'no MPI: parallel_deriv_color seeds are not exercised', 'optimizer results (pre/post-opt grouping) not yet covered']
